@@ -270,7 +270,7 @@ func (e *Engine) atoms() []*Atom {
 
 var EditKinds = []string{
 	"src-content", "src-content", "src-touch", "src-rewrite-same", "src-rewrite-rename", "dir-add", "dir-del", "dir-rename",
-	"src-delete", "src-restore", "atom-lit", "atom-lit", "atom-lit", "atom-default", "tgt-extra", "comment", "comment", "docstring", "dep-add", "dep-remove", "tgt-add",
+	"src-delete", "src-restore", "subdir-rename", "atom-lit", "atom-lit", "atom-lit", "atom-default", "tgt-extra", "comment", "comment", "docstring", "dep-add", "dep-remove", "tgt-add",
 	"tgt-remove", "output-delete", "flag", "const-add",
 }
 
@@ -294,6 +294,37 @@ func (e *Engine) Edit(kind string) bool {
 			e.relevant(t.Label())
 		}
 		e.step("edit", "src-content "+rel)
+	case "subdir-rename":
+		// rename a sub-directory inside a source directory (its files keep names and contents)
+		var subs []string
+		seen := map[string]bool{}
+		for _, rel := range e.sortedSrcs() {
+			if i := strings.Index(rel, "dir0/"); i >= 0 {
+				rest := rel[i+5:]
+				if j := strings.Index(rest, "/"); j > 0 {
+					d := rel[:i+5] + rest[:j]
+					if !seen[d] {
+						seen[d] = true
+						subs = append(subs, d)
+					}
+				}
+			}
+		}
+		if len(subs) == 0 {
+			return false
+		}
+		from := subs[r.IntN(len(subs))]
+		to := fmt.Sprintf("%s_%d", strings.TrimRight(from, "0123456789_"), e.M.Clock)
+		if err := os.Rename(filepath.Join(root, from), filepath.Join(root, to)); err != nil {
+			return false
+		}
+		for _, rel := range e.sortedSrcs() {
+			if strings.HasPrefix(rel, from+"/") {
+				e.P.Srcs[to+rel[len(from):]] = e.P.Srcs[rel]
+				delete(e.P.Srcs, rel)
+			}
+		}
+		e.step("edit", "subdir-rename "+from+" -> "+to)
 	case "src-delete":
 		// the file of a still declared source disappears
 		var cands []string
